@@ -94,7 +94,9 @@ func (g *scriptGen) lineText() []TextPart {
 	parts := []TextPart{{S: fmt.Sprintf("L%d", g.lineID)}}
 	if rapid.IntRange(0, 7).Draw(t, "oddstart") == 0 {
 		// lines whose first characters could be mistaken for something else by a line-oriented look-ahead
-		parts[0].S = rapid.SampledFrom([]string{"/k ", "a/b ", "<k ", "é ", "- ", "= ", "} ", "] ", "/", "x/"}).Draw(t, "start") + parts[0].S
+		parts[0].S = rapid.SampledFrom([]string{"/k ", "a/b ", "<k ", "é ", "- ", "= ", "} ", "] ", "/", "x/",
+			// characters that are white space to Unicode but ordinary text to the lexer (the text is trimmed in the end)
+			"\u00a0k ", "\u3000k ", "\u2003", "\u0085k ", "\u200bk "}).Draw(t, "start") + parts[0].S
 	}
 	switch rapid.IntRange(0, 9).Draw(t, "linekind") {
 	case 0:
@@ -395,6 +397,12 @@ func genScript(t *rapid.T, o scriptOpts) *Script {
 			f++
 		}
 		sc.Files[f] = append(sc.Files[f], node)
+	}
+	if rapid.IntRange(0, 3).Draw(t, "filetags") == 0 {
+		sc.FileTags = make([][]string, len(sc.Files))
+		for i := range sc.Files {
+			sc.FileTags[i] = rapid.SampledFrom([][]string{nil, {"chapter:two"}, {"filetag", "another:tag"}, {"t1"}}).Draw(t, "tags")
+		}
 	}
 	if len(shadows) > 0 {
 		if rapid.Bool().Draw(t, "shadowreader") {
